@@ -62,7 +62,10 @@ func VerifC11Trivia() {
 	vf.MustTerminate()
 	expSym, expMeta := mode == 1, mode == 2
 	plain := verifScanOnce(rest, expSym, expMeta)
+	// (the parser trace of --debug switched on or off: the reading is the same)
+	SetDebug(vf.NondetIntRange("debug", 0, 1))
 	with := verifScanOnce(append([]rune(trivia), rest...), expSym, expMeta)
+	SetDebug(0)
 	vf.Assert("trivia-same-token", with.kind == plain.kind)
 	vf.Assert("trivia-same-text", with.text == plain.text)
 	vf.Assert("trivia-same-error-state", with.failed == plain.failed)
